@@ -6,6 +6,7 @@ import (
 	"fmt"
 	"go/ast"
 	"go/types"
+	"sort"
 	"strings"
 
 	"golang.org/x/tools/go/ssa"
@@ -20,6 +21,7 @@ type frozenFn struct {
 	Params []string `json:"p,omitempty"` // "name type"
 	Free   []string `json:"f,omitempty"`
 	Locals []string `json:"l,omitempty"`
+	Getter []string `json:"g,omitempty"` // trivial accessors the function calls (paths.go, getterKeep)
 }
 
 //go:embed names.json
@@ -63,6 +65,18 @@ func snapshotNames(f *ssa.Function) frozenFn {
 	for _, a := range namedAllocs(f) {
 		fz.Locals = append(fz.Locals, a.Comment+" "+a.Type().String())
 	}
+	seen := map[string]bool{}
+	for _, b := range f.Blocks {
+		for _, in := range b.Instrs {
+			if c, ok := in.(*ssa.Call); ok {
+				if g := c.Call.StaticCallee(); g != nil && !seen[g.String()] && trivialGetter(g) != nil {
+					seen[g.String()] = true
+					fz.Getter = append(fz.Getter, g.String())
+				}
+			}
+		}
+	}
+	sort.Strings(fz.Getter)
 	return fz
 }
 
@@ -151,6 +165,11 @@ func applyFrozenNames(p *Program) (int, error) {
 		if !ok || f.Synthetic != "" {
 			continue
 		}
+		keep := map[string]bool{}
+		for _, g := range fz.Getter {
+			keep[g] = true
+		}
+		getterKeep[f] = keep
 		cur := snapshotNames(f)
 		if sameTypes(cur.Params, fz.Params) {
 			for i, prm := range f.Params {
